@@ -197,6 +197,9 @@ extend("C14", "The compaction stand-in also covers a tracker added after the tor
 extend("C04", "Round 5 (batch 3): a re-check that finds pieces missing clears the completed flag before the torrent is stopped again, also when the user asked for the re-check.")
 extend("C11", "The bencode guard answers after the first complete value: the raw block that follows the dictionary of a metadata message is never read as bencode.")
 extend("C09", "Round 5 (batch 3): the web-seed downloader decides whether a piece is the last of its range against the live end of the range (as shortened by the picker), not a value remembered at start.")
+extend("C15", "Round 5 (batch 4): the UDP tracker's interval reaches the announcer as the reply's 32-bit seconds widened before scaling, for every value.")
+extend("C05", "Round 5 (batch 4): the on-disk verifier hashes a piece only after a read that returned all its bytes (the reused buffer's stale tail never reaches the hash check).")
+extend("C03", "Round 5 (batch 4): a reader that finds a cache item whose load failed gets the error, never the partly filled buffer.")
 
 na("C10", "liveness/progress over unbounded schedules of several goroutines: a function contract cannot state fairness or progress measures (DESIGN.md §4 C10)")
 na("C20", "data races and lock-ups quantify over schedules; the contracts are sequential and assume the single-owner discipline C20 asks to prove (DESIGN.md §4 C20)")
